@@ -71,6 +71,7 @@ func checkC18(c *Ctx) {
 	c18Terminates(c, gens)
 	c18KindCases(c, gens)
 	c18Names(c, gens)
+	c18SchemaFromType(c, gens)
 	c18Refs(c)
 	c18PathMirror(c)
 	c18Bind(c)
